@@ -13,7 +13,9 @@ to the unchanged translator:
   2. `wp.identity(3, dtype=...)` (keyword argument, rejected by the translator) is rewritten to the
      literal 3x3 identity in `_get_mat`, `_frame_linvel`, `_frame_angvel`; `_frame_pos` and
      `_frame_axis` are re-emitted so that they bind to the rewritten `_get_mat`;
-  3. the conditionally defined locals `contact_forcetorque` (`_sensor_acc`) and `axis`
+  3. the row alias `out = sensordata_out[worldid]` is substituted away (the translator would thread
+     it through every branch as a second result, which makes the Coq terms needlessly large);
+  4. the conditionally defined locals `contact_forcetorque` (`_sensor_acc`) and `axis`
      (`_sensor_pos`) get a zero initialiser at the top of the kernel (every use is dominated by
      an assignment, so the value is never observed).
 
@@ -151,6 +153,26 @@ class _Inliner(ast.NodeTransformer):
     return node
 
 
+def _unalias(fd, body):
+  """`out = arr[worldid]` (row view of an array parameter, never reassigned) is substituted away:
+  the translator would otherwise thread the alias through every branch as a second result."""
+  arrays = {a.arg for a in fd.args.args if a.annotation is not None and ast.unparse(a.annotation).startswith("wp.array")}
+  stores = {}
+  for s in body:
+    for n in ast.walk(s):
+      if isinstance(n, ast.Name) and isinstance(n.ctx, ast.Store):
+        stores[n.id] = stores.get(n.id, 0) + 1
+  out, mapping = [], {}
+  for s in body:
+    if (isinstance(s, ast.Assign) and len(s.targets) == 1 and isinstance(s.targets[0], ast.Name) and isinstance(s.value, ast.Subscript)
+        and isinstance(s.value.value, ast.Name) and s.value.value.id in arrays and stores.get(s.targets[0].id) == 1
+        and isinstance(s.value.slice, ast.Name) and stores.get(s.value.slice.id, 0) <= 1 and s.targets[0].id == "out"):  # fmt: skip
+      mapping[s.targets[0].id] = s.value
+      continue
+    out.append(_Subst(mapping).visit(s) if mapping else s)
+  return out
+
+
 class _Identity(ast.NodeTransformer):
   def visit_Call(self, n):
     self.generic_visit(n)
@@ -184,7 +206,7 @@ def build_source(SM):
     fd = _fdef(getattr(SM, kn).func)
     fd.decorator_list = [ast.Name(id="_F", ctx=ast.Load())]
     inl = _Inliner(writers)
-    fd.body = inl._block(_strip_doc(fd.body))
+    fd.body = inl._block(_unalias(fd, _strip_doc(fd.body)))
     for k, line in enumerate(INIT.get(kn, ())):
       fd.body.insert(1 + k, ast.parse(line).body[0])
     fd = _Identity().visit(fd)
@@ -192,6 +214,72 @@ def build_source(SM):
     stats[kn] = inl.count
     parts += [ast.unparse(fd), ""]
   return "\n".join(parts), stats
+
+
+LIFT = ("_sensor_pos", "_sensor_vel")
+LIFT_TYPES = {"writes__": "(list (write S))"}  # every other lifted local is an integer
+
+
+def lift_body(text, name):
+  """Coq-level lambda lifting of the leading one-line `let x := e in` chain of kernel `name`:
+       Definition name params := let x1 := e1 in .. let xn := en in BODY.
+   becomes
+       Definition name_body params x1 .. xn := BODY.
+       Definition name params := let x1 := e1 in .. let xn := en in name_body params x1 .. xn.
+   so that Proof/Sensor.v can reason about BODY with the sensor type as a variable.  The rewritten
+   text is what Coq compiles and what the kernel validation runs, so the step is covered by it."""
+  import re
+
+  lines = text.split("\n")
+  start = next(i for i, l in enumerate(lines) if l.startswith(f"Definition {name} "))
+  head = lines[start]
+  m = re.match(r"Definition (\S+) (.*) : \(list \(write S\)\) :=$", head)
+  params = m.group(2)
+  pnames = re.findall(r"\((\w+) : ", params)
+  lets = []
+  i = start + 1
+  while True:
+    mm = re.match(r"  let (\w+) := (.*) in$", lines[i])
+    if not mm or mm.group(2).count("(") != mm.group(2).count(")"):
+      break
+    lets.append((mm.group(1), mm.group(2)))
+    i += 1
+  end = next(j for j in range(i, len(lines)) if lines[j].endswith(".") and not lines[j].startswith("(*") and (j + 1 >= len(lines) or lines[j + 1] == ""))
+  body = lines[i : end + 1]
+  names = []
+  for n, _ in lets:  # a name bound twice keeps its last binding as the parameter
+    if n in names:
+      raise ValueError(f"{name}: local {n} rebound in the lifted prefix")
+    names.append(n)
+  lifted = " ".join(f"({n} : {LIFT_TYPES.get(n, 'Z')})" for n in names)
+  out = [f"Definition {name}_body {params} {lifted} : (list (write S)) :="] + body + [""]
+  out += [head] + [f"  let {n} := {e} in" for n, e in lets] + [f"  ({name}_body {' '.join(pnames)} {' '.join(names)})."]
+  return "\n".join(lines[:start] + out + lines[end + 1 :])
+
+
+def outline_branch(text, defname, newname, cond_prefix):
+  """Move the `then` branch of the `if <cond_prefix>..` of definition `defname` into its own
+  definition `newname` with the same parameters (all variables in scope are parameters of
+  `defname`).  Used for the geom-distance search of `_sensor_pos` (nested loops): keeping it
+  out of line keeps the terms Proof/Sensor.v manipulates small."""
+  import re
+
+  lines = text.split("\n")
+  start = next(i for i, l in enumerate(lines) if l.startswith(f"Definition {defname} "))
+  head = lines[start]
+  m = re.match(r"Definition (\S+) (.*) : \(list \(write S\)\) :=$", head)
+  params = m.group(2)
+  pnames = re.findall(r"\((\w+) : ", params)
+  end = next(j for j in range(start, len(lines)) if lines[j] == "")
+  i = next(j for j in range(start, end) if lines[j].strip().startswith("if " + cond_prefix) and lines[j].rstrip().endswith("then"))
+  ind = len(lines[i]) - len(lines[i].lstrip())
+  j = next(k for k in range(i + 1, end) if lines[k] == " " * ind + "else")
+  branch = [l[ind:] if l.startswith(" " * ind) else l for l in lines[i + 1 : j]]
+  # a branch that used a local of the enclosing definition does not compile (fail closed)
+  new =[f"Definition {newname} {params} : (list (write S)) :="] + branch
+  new[-1] = new[-1] + "."
+  call = " " * (ind + 2) + f"({newname} {' '.join(pnames)})"
+  return "\n".join(lines[:start] + new + [""] + lines[start : i + 1] + [call] + lines[j:])
 
 
 def _module():
@@ -234,7 +322,13 @@ def _make(tag, kernels, outfile):
         fi = None
       if fi is not None:
         tr.kernels[kn] = fi
-    tr.emit(os.path.join(vlib.COQ, "Gen", outfile))
+    text = tr.emit(None)
+    for kn in kernels:
+      if kn in LIFT and kn in tr.kernels:
+        text = lift_body(text, "k_" + kn)
+    if "_sensor_pos" in kernels and "_sensor_pos" in tr.kernels:
+      text = outline_branch(text, "k__sensor_pos_body", "k__sensor_pos_geom", "((Z.eqb sensortype (39)%Z)")
+    vlib.write_if_changed(os.path.join(vlib.COQ, "Gen", outfile), text)
     _cache[tag] = tr
     return tr
 
